@@ -115,7 +115,7 @@ func parseOp(line string) (op, bool) {
 	o := op{kind: f[0], line: line}
 	bad := func() (op, bool) { return o, false }
 	switch f[0] {
-	case "H", "A":
+	case "H", "A", "M":
 		if len(f) < 3 {
 			return bad()
 		}
@@ -226,8 +226,13 @@ func (s *spec) commit(h http.Header, code int) {
 	}
 	s.trailerKeys = append([]string{}, s.hdr["Trailer"]...)
 	for _, k := range s.trailerKeys {
-		s.insaneIf(k != http.CanonicalHeaderKey(k) || !isToken(k), "trailer-key")
-		s.insaneIf(k == "Content-Length" || k == "Transfer-Encoding" || k == "Trailer", "trailer-key")
+		// a trailer may be declared under any spelling (the handler then stores its value under that spelling)
+		s.insaneIf(!isToken(k), "trailer-key")
+		ck := http.CanonicalHeaderKey(k)
+		s.insaneIf(ck == "Content-Length" || ck == "Transfer-Encoding" || ck == "Trailer", "trailer-key")
+		for _, k2 := range s.trailerKeys {
+			s.insaneIf(k2 != k && http.CanonicalHeaderKey(k2) == ck, "trailer-key") // two spellings of one name
+		}
 	}
 	if len(s.trailerKeys) > 0 {
 		s.feats["trailer"] = true
@@ -394,11 +399,16 @@ func run(cfg caseCfg, ops []op, tr *track.Tracker, lg *nullLogger) *runOut {
 					}
 				}()
 				switch o.kind {
-				case "H", "A", "X":
+				case "H", "A", "X", "M":
 					late := sp.committed
+					// the map key the operation touches: Set/Add/Del canonicalise, a direct assignment (M) does not
+					mk := http.CanonicalHeaderKey(o.k)
+					if o.kind == "M" {
+						mk = o.k
+					}
 					isTr := false
 					for _, k := range sp.trailerKeys {
-						if k == http.CanonicalHeaderKey(o.k) {
+						if k == mk {
 							isTr = true
 						}
 					}
@@ -409,6 +419,9 @@ func run(cfg caseCfg, ops []op, tr *track.Tracker, lg *nullLogger) *runOut {
 						h.Add(o.k, o.v)
 					case "X":
 						h.Del(o.k)
+					case "M":
+						h[o.k] = []string{o.v} // w.Header()[k] = []string{v}: the spelling is kept
+						sp.insaneIf(!isTr && mk != http.CanonicalHeaderKey(mk), "raw-header-key")
 					}
 					if late && !isTr {
 						sp.insaneIf(true, "late-header")
@@ -748,15 +761,21 @@ func decodeCheck(cfg caseCfg, sp *spec, h http.Header, wire []byte, closed bool)
 	if wireChunked && sp.explicitCL >= 0 {
 		add("mismatch=framing chunked although the handler declared Content-Length %d", sp.explicitCL)
 	}
+	declared := map[string]bool{}
 	for _, k := range sp.trailerKeys {
-		w := h.Get(k)
-		g := resp.Trailer.Get(k)
+		// the value the handler's map holds under the declared spelling when it returns
+		w := ""
+		if vv := h[k]; len(vv) > 0 {
+			w = vv[0]
+		}
+		g := resp.Trailer.Get(k) // the client canonicalises the field name
+		declared[http.CanonicalHeaderKey(k)] = true
 		if w != g {
 			add("mismatch=trailer key=%s want=%q got=%q", k, w, g)
 		}
 	}
 	for k := range resp.Trailer {
-		if !isTrailer[k] {
+		if !declared[k] {
 			add("mismatch=trailer unexpected key=%s", k)
 		}
 	}
@@ -831,6 +850,10 @@ func execResp(e *lp.Exec, cline string, lines []string, tr *track.Tracker, lg *n
 			f := strings.Fields(l)
 			n := map[string]int{"H": 3, "A": 3, "X": 2}[o.kind]
 			l = strings.Join(f[:n], " ") + " ck=" + hexOrDash(http.CanonicalHeaderKey(o.k))
+		}
+		if ok && o.kind == "M" { // the map key of a direct assignment is the key as written
+			f := strings.Fields(l)
+			l = strings.Join(f[:3], " ") + " ck=" + hexOrDash(o.k)
 		}
 		ops = append(ops, o)
 		echo = append(echo, l)
@@ -933,6 +956,8 @@ func execResp(e *lp.Exec, cline string, lines []string, tr *track.Tracker, lg *n
 				h.Add(o.k, o.v)
 			case "X":
 				h.Del(o.k)
+			case "M":
+				h[o.k] = []string{o.v}
 			}
 		}
 		for _, m := range decodeCheck(cfg, sp, h, out.wire, out.closed > 0) {
